@@ -161,25 +161,27 @@ theorem nxConnTrack_rt (fl zs zo rt alg kp : Nat) (as : List V) (encs : List Byt
     ∀ (data : Slice) (tail : Bytes) (k : Nat), data.WF → data.bytes = bs ++ tail → DecodeAction (k + 2) data = .ok v' := by
   intro L v' bs
   obtain ⟨hcnt, hsum⟩ := actions_len as encs has
-  have hlens := ct_lens 7 as encs has hleaf
+  obtain ⟨dd, hdd⟩ : ∃ d, Action.encDepth = d + 1 := ⟨Action.encDepth - 1, rfl⟩
+  have hlens := ct_lens dd as encs has hleaf
   have hs16 := sum16_lens encs hsum (by omega)
   have hL : L < 65536 := hS
   have hfx : (ctFixed fl zs zo rt alg).length = 14 := rfl
   have h10 : (nxHdrBytes L Gen.openflow13.NXAST_CT).length = 10 := rfl
   have hbl : bs.length = L := by simp only [bs, List.length_append, hfx, h10, L]
-  have hlenW : ∀ (ln0 : Nat) (pad : Bytes), NXActionConnTrack.lenWith (Action.lenD 8) (ctV ln0 fl zs zo rt pad alg as)
+  have hlenW : ∀ (ln0 : Nat) (pad : Bytes), NXActionConnTrack.lenWith (Action.lenD Action.encDepth) (ctV ln0 fl zs zo rt pad alg as)
       = .ok (n16 L, ctV L fl zs zo rt pad alg as) := by
     intro ln0 pad
+    rw [hdd]
     have hl : n16 Gen.openflow13.NxActionHeaderLength + 14 + n16 encs.flatten.length = n16 L := by
       have : (14 : UInt16) = n16 14 := rfl
       rw [this, n16_add, n16_add]; rfl
     simp only [ctV, NXActionConnTrack.lenWith, NXActionHeader.lenM, same, Res.bind_ok, hlens, hs16, hl, nxHdr_setLength ln0 _ L hL]
   have hk : ∀ ln0 pad, (ctV ln0 fl zs zo rt pad alg as).kind = "NXActionConnTrack" := fun _ _ => rfl
   refine ⟨fun ln0 => ?_, ?_, hbl, ?_⟩
-  · unfold Action.marshalM Action.encDepth Action.marshalD
+  · unfold Action.marshalM Action.marshalD
     rw [if_pos (hk ln0 _)]
     unfold NXActionConnTrack.marshalWith
-    rw [hlenW ln0 (zeros kp)]
+    rw [hlenW ln0 (zeros kp), hdd]
     simp only [ctV, Res.bind_ok, nxHdr_bytes, n16_toNat L hL]
     have hpl : piecesLen [pCopy (nxHdrBytes L Gen.openflow13.NXAST_CT), pU16 fl, pU32 zs, pU16 zo, pU8 rt, pCopyAdv (zeros kp) 3, pU16 alg] = 24 := rfl
     rw [fill_exact L _ (by intro p hp; simp at hp; rcases hp with rfl | rfl | rfl | rfl | rfl | rfl | rfl <;>
@@ -190,13 +192,13 @@ theorem nxConnTrack_rt (fl zs zo rt alg kp : Nat) (as : List V) (encs : List Byt
       have : kp + (3 - kp) = 3 := by omega
       rw [this]; rfl
     rw [hpre]
-    have hm := ct_marshalActs 7 as encs has hleaf (nxHdrBytes L Gen.openflow13.NXAST_CT ++ ctFixed fl zs zo rt alg) (L - 24)
+    have hm := ct_marshalActs dd as encs has hleaf (nxHdrBytes L Gen.openflow13.NXAST_CT ++ ctFixed fl zs zo rt alg) (L - 24)
       (by simp only [L]; omega)
     simp only [List.length_append, hfx, h10] at hm
     simp only [Res.bind_ok, hm]
     have hz : L - 24 - encs.flatten.length = 0 := by simp only [L]; omega
     simp only [hz, zeros, List.replicate_zero, List.append_nil, bs]
-  · unfold Action.lenM Action.encDepth Action.lenD
+  · unfold Action.lenM Action.lenD
     rw [if_pos (hk L _)]
     exact hlenW L []
   · intro data tail k hd hb
